@@ -92,6 +92,8 @@ struct Hub
     int store_runs[2] = { 0, 0 };
     bool shutdown_seen = false;
     int inits = 0;
+    bool refuse_open[4] = { false, false, false, false }; // one shot: the next open of device id (0,1 cameras; 2,3 storages) is refused
+    int opens_refused = 0;
     const char* lifecycle_prop = "C08";
     const char* context = ""; // appended to the discriminator of life-cycle failures (e.g. "@configure-while-running")
     void reset();
@@ -120,6 +122,7 @@ struct Instance
     int serial = 0;
     bool closed = false;
     int closes = 0;
+    bool stopping = false; // inside its stop call (a stop takes time)
     std::vector<uint8_t> snapshot;
     // life cycle
     bool started = false;
